@@ -9,6 +9,33 @@ IPS6 = ['::1', '2001:db8::ff00:42:8329', 'fe80::1%eth0']
 TOKENS_OK = ['a', 'b+c', 'A_1-x', 'admin', 'Zz9', 'x\n']
 TOKENS_BAD = ['1a', 'a b', 'é', '', 'a,b', 'a!b', '_x']
 _issue = [None, None]
+# one character per UTF-8 length class / Unicode property that the string handling distinguishes:
+# latin-1, two-byte above U+00FF, three-byte, fullwidth digit, astral, arabic-indic digit, NBSP-like space
+UNI = ['\u00e9', '\u0101', '\u20ac', '\uff11', '\U0001F600', '\u0660', '\u2003', '\u00ff', '\u0100']
+
+
+def issue0(o):
+    """issue with the real helper; an exception while issuing is a result (None), never a generator crash"""
+    try:
+        return _issue[0](o)
+    except Exception:
+        return None
+
+
+def issue1(f):
+    try:
+        return _issue[1](f)
+    except Exception:
+        return None
+
+
+def spell(rng, ch):
+    """a character literally, or percent-escaped as its UTF-8 bytes (upper / lower hex)"""
+    r = rng.random()
+    if r < 0.5:
+        return ch
+    fmt = '%%%02X' if r < 0.8 else '%%%02x'
+    return ''.join(fmt % b for b in ch.encode('utf-8'))
 
 
 def set_issuer(f, g):
@@ -97,8 +124,33 @@ def edit_cookie(rng, c, n, other):
     bounds = sorted(set(x for x in [0, n - 1, n, n + 1, n + 7, n + 8, n + 9, bang - 1, bang, bang + 1, len(c) - 1]
                         if 0 <= x < len(c)))
     k = rng.choice(['subst', 'subst-b', 'insert', 'delete', 'trunc', 'splice', 'upper-digest', 'recase-ts', 'pct',
-                    'quotes', 'ts-lenient', 'ts-neg', 'nonascii-digest', 'uni-digit', 'swap-fields', 'append'])
+                    'quotes', 'ts-lenient', 'ts-neg', 'nonascii-digest', 'uni-digit', 'swap-fields', 'append',
+                    'uni-field', 'uni-field', 'uni-field'])
     pos = rng.choice(bounds) if rng.random() < 0.6 else rng.randrange(len(c))
+    if k == 'uni-field':
+        # a non-ASCII character (each UTF-8 length class), literal or percent-escaped, inserted into or substituted
+        # inside ONE field of the ticket: digest | timestamp | userid | tokens | user_data
+        cuts = [0, min(n, len(c)), min(n + 8, len(c))]
+        p = n + 8
+        while True:
+            q = c.find('!', p)
+            if q < 0:
+                break
+            cuts.append(q)
+            p = q + 1
+        cuts.append(len(c))
+        cuts = sorted(set(cuts))
+        fi = rng.choice([2, 2, 2] + list(range(len(cuts) - 1))) if len(cuts) > 3 else rng.randrange(max(1, len(cuts) - 1))
+        fi = min(fi, len(cuts) - 2)
+        lo, hi = cuts[fi], cuts[fi + 1]
+        if fi >= 3:
+            lo += 1                     # after the '!'
+        lo = min(lo, hi)
+        q = rng.randint(lo, hi)
+        sp = spell(rng, rng.choice(UNI))
+        if rng.random() < 0.6 or q >= hi:
+            return k, c[:q] + sp + c[q:]
+        return k, c[:q] + sp + c[q + 1:]
     if k == 'subst':
         ch = rng.choice(PRINTABLE)
         return k, c[:pos] + ch + c[pos + 1:]
@@ -168,7 +220,10 @@ def gen_garbage(rng):
     if r < 0.6:
         n = rng.choice([32, 40, 64, 128, 56])
         return ''.join(rng.choice('0123456789abcdef') for _ in range(n)) + '%08x' % rng.randrange(2 ** 32) + \
-            rng.choice(['bob!', 'bob!a,b!', '!', '', 'Ym9i!userid_type:b64unicode', '5!userid_type:int', '%ZZ!x!y'])
+            rng.choice(['bob!', 'bob!a,b!', '!', '', 'Ym9i!userid_type:b64unicode', '5!userid_type:int', '%ZZ!x!y',
+                        spell(rng, rng.choice(UNI)) + '!', 'bob' + spell(rng, rng.choice(UNI)) + '!a!userid_type:int',
+                        'x!' + spell(rng, rng.choice(UNI)) + '!y', 'x!a!' + spell(rng, rng.choice(UNI)),
+                        spell(rng, rng.choice(UNI)) * 3 + '!!'])
     if r < 0.8:
         return ''.join(chr(rng.choice([34, 33, 37, 48, 65, 102, 32, 0xe9, 0x20ac, 0xff11, 0x1F600, 9, 95, 43, 45]))
                        for _ in range(rng.randrange(0, 90)))
@@ -179,7 +234,7 @@ FOREIGN_UD = ['userid_type:int', 'userid_type:unicode', 'userid_type:b64unicode'
               'userid_type:float', '', 'x|userid_type:int|y', 'userid_type:b64str|userid_type:int',
               'userid_type:int|userid_type:int', 'a!b', '|', 'userid_type:', 'userid_type:b64unicode|userid_type:b64str',
               'userid_type:b64str|userid_type:unicode', 'userid_type:b64str|userid_type:b64str']
-FOREIGN_UID = ['12', ' 42 ', '1_0', '+7', '-0', '0x10', '١٢', '1__0', 'abc', '', 'Ym9i', 'Ym9i\n', 'Ym9',
+FOREIGN_UID = ['€uro', '\u0101b', '\U0001F600', '12', ' 42 ', '1_0', '+7', '-0', '0x10', '١٢', '1__0', 'abc', '', 'Ym9i', 'Ym9i\n', 'Ym9',
                'Y Q==', 'YQ==YQ==', '/wA=', '!!!!', 'Y=Q=', '=', '4pyT', 'w6k=', 'wyg=', '7aCA', 'MTI=', 'IDcg',
                'bob', 'a!b', 'Québec', '1' * 30, '%41', 'TVRJPQ==', 'TVE9PQ==']
 
@@ -206,8 +261,10 @@ def gen_case(rng):
         f = {'secret': cfg['secret'], 'hashalg': cfg['hashalg'], 'ip': eff_ip, 't0': t0,
              'userid': rng.choice(FOREIGN_UID), 'tokens': rng.choice([[], ['a'], ['a', 'b'], ['1x'], ['a', '', 'b'], ['']]),
              'user_data': rng.choice(FOREIGN_UD)}
-        cookie = _issue[1](f)
-        if rng.random() < 0.15:
+        cookie = issue1(f)
+        if cookie is None:
+            kind = 'issue-raised'
+        elif rng.random() < 0.15:
             kind = 'foreign-edited'
             _, cookie = edit_cookie(rng, cookie, _dlen(cfg['hashalg']), None)
     else:
@@ -229,7 +286,7 @@ def gen_case(rng):
         elif d < 0.23:
             origin['t0'] = t0 = rng.choice([2 ** 32, 2 ** 32 + 5, 2 ** 36 + 1234])
             kind = 'hex8-overflow'
-        cookie = _issue[0](origin)
+        cookie = issue0(origin)
         if cookie is None:
             kind = 'issue-raised'
         elif kind == 'issued' and rng.random() < 0.45:
@@ -237,7 +294,7 @@ def gen_case(rng):
             other_u = None
             if rng.random() < 0.5:
                 o2 = dict(origin, u=gen_uval(rng), t0=t0 + rng.choice([0, 1, 4096]))
-                other = _issue[0](o2)
+                other = issue0(o2)
                 other_u = o2['u']
             lab, cookie = edit_cookie(rng, cookie, _dlen(cfg['hashalg']), other)
             kind = 'edited:' + lab
@@ -301,7 +358,7 @@ def valid(case):
 KINDS = {'none', 'garbage', 'foreign', 'foreign-edited', 'issued', 'other-secret', 'other-alg', 'other-ip',
          'hex8-overflow', 'issue-raised'}
 EDITS = {'subst', 'subst-b', 'insert', 'delete', 'trunc', 'splice', 'upper-digest', 'recase-ts', 'pct', 'quotes',
-         'ts-lenient', 'ts-neg', 'nonascii-digest', 'uni-digit', 'swap-fields', 'append'}
+         'ts-lenient', 'ts-neg', 'nonascii-digest', 'uni-digit', 'swap-fields', 'append', 'uni-field'}
 CLOCKS = {'same', 'later', 'earlier', 'timeout-1', 'timeout+0', 'timeout+1', 'reissue-1', 'reissue+0', 'reissue+1'}
 
 
@@ -334,7 +391,7 @@ def targeted_cases(rng):
                    'reissue_time': 10, 'max_age': None, 'http_only': False, 'path': '/', 'wild_domain': True,
                    'parent_domain': False, 'domain': None, 'hashalg': alg, 'samesite': 'Lax'}
             origin = {'secret': 'sec', 'hashalg': alg, 'ip': '0.0.0.0', 't0': 1000, 'u': [0, 'alice'], 'tokens': ['a']}
-            ck = _issue[0](origin)
+            ck = issue0(origin)
             out.append({'cfg': cfg, 'req': {'cookie': ck, 'ip': '127.0.0.1', 'host': 'example.com', 'now': 2000},
                         'ops': seq, 'origin': origin, 'other_u': None, 'kind': 'issued', 'clock': 'later', 'seam': False})
     return out
